@@ -33,7 +33,7 @@ def main():
     demo = meta.get("demo") or meta.get("demo_placement") or ""
     res = {"demo_spec": demo}
     md = re.search(r"([\w/.-]+/(?:demo|mut)_[\w-]+\.rs)", demo)
-    mc = re.search(r"((?:CARGO_NET_OFFLINE=true )?cargo nextest run .+)$", demo)
+    mc = re.search(r"((?:CARGO_NET_OFFLINE=true )?cargo nextest run .*?--test [\w-]+)", demo)
     if not (md and mc):
         res["error"] = "demo field not in the expected form; confirm by hand"
         print(json.dumps(res, indent=1)); return 1
